@@ -228,26 +228,9 @@ class CallMixin:
         else:
             st.assume(entry[1](H))
 
-    def havoc(self, st: State, anchor: str) -> State:
-        """Foreign code runs (other tasks at an await, user code in an opaque call): new heap under the rely."""
-        s2 = st.copy()
-        old = HeapView(st.heap)
-        newheap = self.fresh_heap("hv")
-        newheap["w_dict"] = st.heap["w_dict"]        # activation-local ghosts
-        newheap["mycalls"] = st.heap["mycalls"]
-        s2.heap = newheap
-        new = HeapView(newheap)
-        s2.assume(new.alloc >= old.alloc)
-        for entry in self.reg.rely_clauses(self):
-            if entry[0].startswith(("immutable:", "set-monotone:")):
-                # quantified immutability: ground instances for the objects in scope are assumed below; the
-                # quantified form is a second-stage hypothesis
-                s2.heavy.append(entry[1](old, new))
-            else:
-                s2.assume(entry[1](old, new))
-        for entry in self.reg.invariants:
-            self.assume_invariant(s2, entry, new)
-        # ground instances of the immutability clauses for the objects in scope (same facts as the quantified rely)
+    def assume_immutables(self, s2: State, st: State, newheap):
+        """ground instances of the immutability clauses (construction-time fields, classes, tuples) for the objects
+        in scope, between the heap of `st` and `newheap` (same facts as the quantified rely clauses)"""
         for n, v in st.env.items():
             k = strip_opt(v.ty)
             if k.kind != "inst":
@@ -267,11 +250,40 @@ class CallMixin:
                         s2.assume(z3.Implies(g2, z3.And(z3.Select(newheap["t_item"], ta) == z3.Select(st.heap["t_item"], ta),
                                                         z3.Select(newheap["t_len"], ta) == z3.Select(st.heap["t_len"], ta))))
             s2.assume(z3.Implies(guard, z3.Select(newheap["fld:__class__"], a) == z3.Select(st.heap["fld:__class__"], a)))
-        # objects owned by this activation are untouched
+
+    def havoc(self, st: State, anchor: str) -> State:
+        """Foreign code runs (other tasks at an await, user code in an opaque call): new heap under the rely."""
+        s2 = st.copy()
+        old = HeapView(st.heap)
+        newheap = self.fresh_heap("hv")
+        newheap["w_dict"] = st.heap["w_dict"]        # activation-local ghosts
+        newheap["mycalls"] = st.heap["mycalls"]
+        s2.heap = newheap
+        new = HeapView(newheap)
+        s2.assume(new.alloc >= old.alloc)
+        for entry in self.reg.rely_clauses(self):
+            if entry[0].startswith(("immutable:", "set-monotone:")):
+                # quantified immutability: ground instances for the objects in scope are assumed below; the
+                # quantified form is a second-stage hypothesis
+                s2.heavy.append(entry[1](old, new))
+            else:
+                s2.assume(entry[1](old, new))
+        for entry in self.reg.invariants:
+            self.assume_invariant(s2, entry, new)
+        if self.spec is not None and hasattr(self.spec, "extra_rely") and not getattr(self, "_dry", 0) < 0:
+            for (name, fn) in self.spec.extra_rely(self, st):
+                s2.assume(fn(old, new))
+        self.assume_immutables(s2, st, newheap)
+        # objects owned by this activation are untouched (only the components that describe an object of that kind)
+        KIND_COMPS = {"dict": ("d_has", "d_get", "d_len"), "list": ("l_len", "l_item"), "set": ("s_has", "s_len"),
+                      "tuple": ("t_len", "t_item"), "env": ()}
+        kinds = st.loopvars.get("owned_kind", {})
         for a in st.owned:
-            for c, sort in self.comps.items():
-                if c == "alloc" or not z3.is_array(newheap[c]) or newheap[c].sort().domain() != I:
-                    continue
+            kind = kinds.get(a.get_id(), "obj")
+            cs = KIND_COMPS.get(kind)
+            if cs is None:
+                cs = [c for c, srt in self.comps.items() if c != "alloc" and z3.is_array(newheap[c]) and newheap[c].sort().domain() == I]
+            for c in cs:
                 s2.assume(z3.Select(newheap[c], a) == z3.Select(st.heap[c], a))
         # this activation's cells: written only by this activation and its nonlocal-writing closures
         if st.envref is not None:
